@@ -1,4 +1,5 @@
 #!/bin/sh
+export SQV_EVIDENCE_DIR=/tmp/sqv_mutant_evidence  # never overwrite the committed evidence with a mutant run
 # usage: mut.sh <ID> <file relative to /repo> <sed expression>   -- apply, run check, revert
 ID=$1; F=$2; E=$3
 cd /repo && cp "$F" /tmp/mut_backup.$$ && sed -i "$E" "$F"
